@@ -12,6 +12,7 @@ def build_corpus(rng, tier):
     decls += corpus.gen_float_guards(rng.fork("float"), per_type=48 * k)
     decls += corpus.gen_str_guards(rng.fork("str"), n=160 * k)
     decls += corpus.gen_any_guards(rng.fork("any"), n=32 * k)
+    decls += corpus.gen_zero_bound_decls() + corpus.gen_default_edge_decls()
     # the unsafe escape hatch on a part of the corpus (it must not change anything else)
     from syntax import tid
     for i, d in enumerate(decls):
